@@ -1,5 +1,5 @@
 (* C03 — Unix timestamps and ordering are a faithful linear time line. *)
-From Astro Require Import Base DateModel TimeModel ApiModel InstantSpec TimeProofs SinceSign.
+From Astro Require Import Base DateModel TimeModel ApiModel InstantSpec TimeProofs SinceSign SinceTime SinceTimeSign.
 
 (* in-range timestamp: DateTime round trip, exact instant, UTC offset *)
 Theorem C03_ts_dt : forall t, ts_in_range t ->
@@ -33,6 +33,12 @@ Theorem C03_order_since : forall a b, Inv_dt a -> Inv_dt b ->
                   dt_nanos_since a b; dt_days_since a b] ->
   (0 < s -> dt_cmp a b = Gt) /\ (s < 0 -> dt_cmp a b = Lt) /\ (dt_cmp a b = Eq -> s = 0).
 Proof. exact c03_order_since. Qed.
+(* the same for two Times (ordered by their stored times of day, whatever offsets they carry) *)
+Theorem C03_time_order_since : forall a b, Inv_tm a -> Inv_tm b ->
+  forall s, In s [time_hours_since a b; time_minutes_since a b; time_seconds_since a b; time_millis_since a b;
+                  time_micros_since a b; time_nanos_since a b] ->
+  (0 < s -> tm_nanos b < tm_nanos a) /\ (s < 0 -> tm_nanos a < tm_nanos b) /\ (tm_nanos a = tm_nanos b -> s = 0).
+Proof. exact c03_time_order_since. Qed.
 
 Example C03_nonvacuous : ts_in_range (-62135596801) /\ ~ ts_in_range 185480451590400 /\ in_i64 185480451590400.
 Proof. unfold ts_in_range, in_i64, EPOCH_SECS, DAYS_TO_1970, SECS_PER_DAY, I32_MIN, I32_MAX, I64_MIN, I64_MAX. lia. Qed.
@@ -45,3 +51,4 @@ Print Assumptions C03_epoch.
 Print Assumptions C03_cmp.
 Print Assumptions C03_cmp_since.
 Print Assumptions C03_order_since.
+Print Assumptions C03_time_order_since.
